@@ -26,7 +26,26 @@ from report import Report  # noqa: E402
 
 def load_ops():
     with open(os.path.join(HERE, "selftest", "operators.json")) as f:
-        return json.load(f)
+        ops = json.load(f)
+    # the independently produced changes kept under /verif: every seeded breaking change must be reported under the
+    # property it was written against, every behaviour-preserving rewrite must add nothing under its property
+    top = os.path.dirname(HERE)
+    for sub, kind in (("seeded", "fire"), ("refactors", "silent")):
+        d = os.path.join(top, sub)
+        for name in sorted(os.listdir(d)) if os.path.isdir(d) else []:
+            pf = os.path.join(d, name, "patch.diff")
+            prop = name.split("-")[0]
+            if os.path.exists(pf) and prop in registry.PROPS:
+                ops.append({"id": "%s/%s" % (sub, name), "kind": kind, "props": [prop], "patch": pf, "expect": "",
+                            "what": "independently produced %s" % ("breaking change" if kind == "fire" else "behaviour-preserving rewrite")})
+    return ops
+
+
+def apply_patch(root, patch):
+    r = subprocess.run(["patch", "-p1", "-s", "-f", "--dry-run", "-i", patch], cwd=root, capture_output=True, text=True)
+    if r.returncode != 0:
+        return False
+    return subprocess.run(["patch", "-p1", "-s", "-f", "-i", patch], cwd=root, capture_output=True, text=True).returncode == 0
 
 
 def apply_edits(root, edits):
@@ -75,7 +94,7 @@ def run(prop=None, only=None, verbose=False):
             work = os.path.join(scratch, "repo")
             shutil.rmtree(work, ignore_errors=True)
             subprocess.run(["rsync", "-a", "--exclude", "target", "--exclude", ".git", runner.REPO + "/", work + "/"], check=True)
-            if not apply_edits(work, o["edits"]):
+            if not (apply_patch(work, o["patch"]) if "patch" in o else apply_edits(work, o["edits"])):
                 results.append({"id": o["id"], "kind": o["kind"], "status": "skipped", "why": "pattern no longer applies"})
                 continue
             try:
